@@ -8,10 +8,11 @@ from typing import Any, Callable, Iterator
 from verif import sched
 
 
-def dfs_preemptions(run_with: Callable[[sched.Policy], sched.Scheduler], p_max: int, limit: int | None = None) -> Iterator[tuple[dict[int, int], sched.Scheduler]]:
+def dfs_preemptions(run_with: Callable[[sched.Policy], sched.Scheduler], p_max: int, limit: int | None = None, part: tuple[int, int] | None = None) -> Iterator[tuple[dict[int, int], sched.Scheduler]]:
     """Exhaustive over all schedules with <= p_max forced switches (CHESS-style).
 
     run_with(policy) builds a fresh scenario, runs it under the policy and returns the scheduler.
+    part=(i, n): only the sub-tree whose first forced switch is at a step = i (mod n) (the search split over processes).
     """
     n = 0
     base = run_with(sched.NonPreemptive({}))
@@ -25,6 +26,8 @@ def dfs_preemptions(run_with: Callable[[sched.Policy], sched.Scheduler], p_max: 
             counts = list(sc.enabled_counts)
             for step, cnt in enumerate(counts):
                 if step <= last or cnt < 2:
+                    continue
+                if part is not None and not pre and step % part[1] != part[0]:
                     continue
                 for k in range(cnt - 1):
                     pre2 = {**pre, step: k}
